@@ -127,12 +127,14 @@ VF_MAIN
   VF_ASSERT(R.current.step.all == in_cstep && R.fadeout.step.all == in_fstep, "setting up a slew does not jump either stream (C16)");
 #elif VF_OP == 3
   /* stage switch inside the real vr_process, from a directly constructed engine state (what vr_init + vr_input leave behind:
-   * stage 0 holds its pre-load of 2*HALF_FIR_LEN_2 zeros plus VF_NIN input samples, the interpolating stage -1 is derived from it by
-   * the real do_input_stage at the top of vr_process): "slew in progress, step has just crossed the octave boundary" - step,
-   * step_step, position, slew length symbolic; sample VALUES are data only (zero; the per-sample dot products are replaced at
-   * goto-program level by vf_*_data_only: their table index depends on the symbolic position).
+   * stage 0 holds its pre-load of 2*HALF_FIR_LEN_2 zeros plus VF_NIN input samples, the other stages are derived from it by the
+   * real do_input_stage): "slew in progress, step has just crossed the octave boundary" - step, step_step, position symbolic;
+   * sample VALUES are data only (zero; the per-sample dot products are replaced at goto-program level by vf_*_data_only: their
+   * table index depends on the symbolic position).
    * VF_DIR 0: stage 0 (decimating path, 2x rate) -> stage -1 (interpolating path): ratio falls below 1
    *        1: stage -1 -> stage 0: ratio rises above 1
+   *        2: stage 0 -> stage 1 (one more 2:1 decimation in front): ratio rises above 2
+   *        3: stage 1 -> stage 0: ratio falls below 2
    * After the call the fade-in stream (new stage) and the fade-out stream (old stage) must describe the SAME ratio trajectory:
    * step and step_step, each divided by its stream's step_mult, agree (up to the bits shifted out by the rescaling), and the
    * read positions address the same instant of the input. */
@@ -142,20 +144,30 @@ VF_MAIN
 #ifndef VF_NIN
 #define VF_NIN 272
 #endif
+#define VF_FROM (VF_DIR == 0? 0 : VF_DIR == 1? -1 : VF_DIR == 2? 0 : 1)
+#define VF_TO   (VF_DIR == 0? -1 : VF_DIR == 1? 0 : VF_DIR == 2? 1 : 0)
+#define VF_K    (VF_DIR < 2? 4 : 2)                  /* ratio of the two streams' step units */
+#define VF_NEW_FINER (VF_DIR == 0 || VF_DIR == 3)    /* the new stage runs at the higher sample rate */
   IN_I64(in_step); IN_I64(in_ss); IN_I64(in_at); IN_UINT(in_slew);
-  static rate_t R; static stage_t st[2]; static float b_m1[0x8000 / 4], b_0[0x8000 / 4], b_out[0x8000 / 4];
-  int odone, from = VF_DIR? -1 : 0, to = VF_DIR? 0 : -1; double mc, mf; int64_t at0, step0, ss0;
+  static rate_t R; static stage_t st[3]; static float b_m1[0x8000 / 4], b_0[0x8000 / 4], b_1[0x8000 / 4], b_out[0x8000 / 4];
+  int odone; double mc, mf; int64_t at0, step0, ss0;
   fade_coefs[0] = 1;
-  R.num_stages0 = 1; R.num_stages = 1; R.stages = st + 1;
+  R.num_stages0 = R.num_stages = VF_DIR < 2? 1 : 2; R.stages = st + 1;
   st[0].fifo.data = (char *)b_m1; st[0].fifo.allocation = 0x8000; st[0].fifo.item_size = sizeof(float); st[0].step_mult = 2 * MULT32; st[0].preload = 0; st[0].is_fast = 1;
   st[1].fifo.data = (char *)b_0; st[1].fifo.allocation = 0x8000; st[1].fifo.item_size = sizeof(float); st[1].step_mult = MULT32; st[1].preload = 2 * HALF_FIR_LEN_2; st[1].is_fast = 1;
   st[1].fifo.end = (2 * HALF_FIR_LEN_2 + VF_NIN) * sizeof(float);
+  st[2].fifo.data = (char *)b_1; st[2].fifo.allocation = 0x8000; st[2].fifo.item_size = sizeof(float); st[2].step_mult = MULT32 / 2; st[2].preload = 3 * HALF_FIR_LEN_2 / 2; st[2].is_fast = 1;
+  st[2].fifo.end = (3 * HALF_FIR_LEN_2 / 2) * sizeof(float);
   R.output_fifo.data = (char *)b_out; R.output_fifo.allocation = 0x8000; R.output_fifo.item_size = sizeof(float);
-  R.current.stage_num = from; enter_new_stage(&R, 0);
+  R.current.stage_num = VF_FROM; enter_new_stage(&R, 0);
 #if VF_DIR == 0     /* in stage 0 the step is io_ratio * 2^31; about to leave downwards: below 2^31 */
   VF_ASSUME(in_step > ((int64_t)1 << 28) && in_step < ((int64_t)1 << 31));
-#else               /* in stage -1 the step is io_ratio * 2^33; about to leave upwards: integer part > 1, fraction != 0 */
+#elif VF_DIR == 1   /* in stage -1 the step is io_ratio * 2^33; about to leave upwards: integer part > 1, fraction != 0 */
   VF_ASSUME(in_step > ((int64_t)2 << 32) && in_step < ((int64_t)3 << 32) && (in_step & 0xffffffff) != 0);
+#elif VF_DIR == 2   /* stage 0, about to leave upwards: step >= 2^32 with a fraction (io_ratio > 2) */
+  VF_ASSUME(in_step > ((int64_t)1 << 32) && in_step < ((int64_t)3 << 31) && (in_step & 0xffffffff) != 0);
+#else               /* in stage 1 the step is io_ratio * 2^30; about to leave downwards: below 2^31 */
+  VF_ASSUME(in_step > ((int64_t)1 << 28) && in_step < ((int64_t)1 << 31));
 #endif
   VF_ASSUME(in_ss > -((int64_t)1 << 20) && in_ss < ((int64_t)1 << 20) && in_ss != 0);
   in_slew = 1000;     /* remaining slew length: constant (it only caps the frames per round; the slew RATE step_step is symbolic) - a symbolic
@@ -165,21 +177,21 @@ VF_MAIN
   R.slew_len = (int)in_slew; R.new_io_ratio = .9;
   odone = vr_process(&R, 1);
   VF_ASSERT(odone >= 0 && odone <= 1, "vr_process: 0 <= frames <= requested (C07)");
-  VF_ASSERT(R.current.stage_num == to && R.fadeout.stage_num == from && (R.fade_len > 0 || odone == 1), "the octave crossing starts a cross-fade from the old stage to the new one (C16)");
+  VF_ASSERT(R.current.stage_num == VF_TO && R.fadeout.stage_num == VF_FROM && (R.fade_len > 0 || odone == 1), "the octave crossing starts a cross-fade from the old stage to the new one (C16)");
   mc = R.current.step_mult; mf = R.fadeout.step_mult;
-  VF_ASSERT(VF_DIR? mf == 4 * mc : mc == 4 * mf, "stage 0 (2x rate, decimating) and stage -1 (interpolated input) count positions in units a factor 4 apart per output frame");
-  { /* compare in the finer scale (the stage -1 stream's); the streams have advanced by the SAME number of output frames (odone) */
+  VF_ASSERT(VF_NEW_FINER? mc == VF_K * mf : mf == VF_K * mc, "the two stages count positions in units a power of two apart per output frame (4 between the 2x-rate decimating stage 0 and the interpolated stage -1, else 2)");
+  { /* compare in the finer scale; the streams have advanced by the SAME number of output frames (odone) */
     int64_t sc = R.current.step.all, sf = R.fadeout.step.all, ssc = R.current.step_step.all, ssf = R.fadeout.step_step.all, d, dd;
-    if (VF_DIR) { sc *= 4; ssc *= 4; } else { sf *= 4; ssf *= 4; }
+    if (VF_NEW_FINER) { sf *= VF_K; ssf *= VF_K; } else { sc *= VF_K; ssc *= VF_K; }
     d = sc - sf; dd = ssc - ssf;
     VF_ASSERT(d >= -8 && d <= 8, "after a stage switch both streams run at the same instantaneous ratio (C16)");
     VF_ASSERT(dd >= -4 && dd <= 4, "after a stage switch both streams slew at the same rate: the ratio keeps moving monotonically towards the target at the set speed (C16)");
     VF_ASSERT(R.fadeout.step_step.all == ss0, "the outgoing stream keeps its slew increment (C16)");
     VF_ASSERT(R.fadeout.step.all == step0 + (odone? ss0 : 0), "the outgoing stream's step advances by step_step per output frame only (C16)");
-    /* read positions: stage -1 holds the input at twice the rate of stage 0, and the end of vr_process subtracts the same consumed
-     * input from both, each in its own units */
-    if (VF_DIR) VF_ASSERT(R.fadeout.at.all - 2 * R.current.at.all >= 0 && R.fadeout.at.all - 2 * R.current.at.all <= 1, "after a stage switch both streams read the same instant of the input (C16)");
-    else VF_ASSERT(R.current.at.all == 2 * R.fadeout.at.all, "after a stage switch both streams read the same instant of the input (C16)");
+    /* read positions: neighbouring stages hold the input at sample rates a factor 2 apart, and the end of vr_process subtracts the
+     * same consumed input from both, each in its own units */
+    if (VF_NEW_FINER) VF_ASSERT(R.current.at.all == 2 * R.fadeout.at.all, "after a stage switch both streams read the same instant of the input (C16)");
+    else VF_ASSERT(R.fadeout.at.all - 2 * R.current.at.all >= 0 && R.fadeout.at.all - 2 * R.current.at.all <= 1, "after a stage switch both streams read the same instant of the input (C16)");
   }
   (void)at0;
 #elif VF_OP == 5
